@@ -22,7 +22,7 @@ EFF_NAMES = {
     6: "forall y:T. p(y) := v", 7: "w(x) := x", 8: "n := n + d", 9: "when C: n += d", 10: "p(x) := true", 11: "u := c1",
     12: "b := true", 13: "forall y:T. when p(y): p(y) := false", 14: "when C: w(x) := o1", 15: "p(x) := false",
     16: "when C: n -= d2", 17: "n := u", 18: "u -= d", 19: "u += d", 20: "forall y:T. when p(y): b := true",
-    21: "p(w(x)) := false (nested fluent in the effect target)", 22: "m(x) += d (bounded numeric fluent with a parameter)",
+    21: "p(w(x)) := false (nested fluent in the effect target: Effect.__init__ rejects it, no skeleton uses it)", 22: "m(x) += d (bounded numeric fluent with a parameter)",
     23: "m(x) -= d",
 }
 INV_NAMES = {0: "always n <= c3", 1: "always b or p(o1)", 2: "always forall y. b or not p(y)"}
@@ -316,7 +316,6 @@ _BASE = [
     (dict(pre=[2], effs=[12, 10], goal=[0, 12]), [[]]),                                               # two goals: the second can fail alone
     (dict(pre=[], effs=[6, 0], inv=[1], goal=[0]), [[]]),                                             # a FORALL effect writes a fluent the invariant reads
     (dict(pre=[], effs=[13, 0], inv=[1], goal=[1]), [[]]),
-    (dict(pre=[], effs=[21, 0], inv=[1], goal=[1], w_init="any"), [[]]),                              # nested-fluent effect target under an invariant
     (dict(pre=[], effs=[5, 2], effcond=0, goal=[0]), [["c2", "d"]]),                                 # conditional assignment + increase on one fluent
     (dict(pre=[12], effs=[17, 12], goal=[0]), [["x0"]]),                                             # effect value reads an undefined fluent
     (dict(pre=[], effs=[5, 16, 0], effcond=4, n_bounds="both", goal=[1]), [["x0", "c2"], ["x0", "c"], ["d2", "lb"]]),  # conditional assign + decrease
